@@ -3,6 +3,7 @@ package rules
 import (
 	"fmt"
 	"go/token"
+	"go/types"
 	"strings"
 
 	"golang.org/x/tools/go/ssa"
@@ -290,48 +291,167 @@ func c18Deterministic(c *Ctx) {
 	c.R.Cond(len(bad) == 0, rule, core.FuncName(enc)+": no randomness or clock reachable", c.P.Pos(enc.Pos()),
 		fmt.Sprintf("%d functions reachable from encrypt, none random or time-dependent", len(seen)),
 		"encrypt can reach a source of randomness/time: equal plaintext no longer gives equal ciphertext, unchanged nodes are stored again ("+strings.Join(bad, "; ")+")")
-	// the nonce given to Seal is copied from nonce(f(message,key))
-	msgP, keyP := an.ParamNamed(enc, "message"), an.ParamNamed(enc, "key")
-	for _, call := range an.Calls(enc) {
-		f := call.Common().StaticCallee()
-		if f == nil || an.PkgPathOf(f) != secretboxPkg || f.Name() != "Seal" {
-			continue
+	// the nonce given to Seal is copied from nonce(f(message,key)); the sealing code may have been
+	// split out of encrypt, so look at every kv function encrypt can (statically) reach
+	kvFns := []*ssa.Function{enc}
+	seenF := map[*ssa.Function]bool{enc: true}
+	for i := 0; i < len(kvFns); i++ {
+		for _, call := range an.Calls(kvFns[i]) {
+			if cal := call.Common().StaticCallee(); cal != nil && an.PkgPathOf(cal) == kvPkg && !seenF[cal] && len(cal.Blocks) > 0 {
+				seenF[cal] = true
+				kvFns = append(kvFns, cal)
+			}
 		}
-		nonceArg := call.Common().Args[2]
-		al, _ := nonceArg.(*ssa.Alloc)
-		good := false
-		if al != nil {
-			for _, r := range *al.Referrers() {
-				sl, ok := r.(*ssa.Slice)
-				if !ok {
-					continue
+	}
+	nSeal := 0
+	for _, sf := range kvFns {
+		var msgP, keyP ssa.Value
+		for _, p := range sf.Params {
+			switch p.Type().String() {
+			case "[]byte":
+				if msgP == nil || p.Name() == "message" {
+					msgP = p
 				}
-				for _, rr := range *sl.Referrers() {
-					cp, ok := rr.(*ssa.Call)
+			case "*[32]byte":
+				keyP = p
+			}
+		}
+		if pm := an.ParamNamed(sf, "message"); pm != nil {
+			msgP = pm
+		}
+		for _, call := range an.Calls(sf) {
+			f := call.Common().StaticCallee()
+			if f == nil || an.PkgPathOf(f) != secretboxPkg || f.Name() != "Seal" {
+				continue
+			}
+			nSeal++
+			// the plaintext sealed is the message parameter
+			sealed := call.Common().Args[1]
+			nonceArg := call.Common().Args[2]
+			al, _ := nonceArg.(*ssa.Alloc)
+			good := false
+			if al != nil && msgP != nil && keyP != nil && an.SameValue(sealed, msgP) {
+				for _, r := range *al.Referrers() {
+					sl, ok := r.(*ssa.Slice)
 					if !ok {
 						continue
 					}
-					bi, ok := cp.Call.Value.(*ssa.Builtin)
-					if !ok || bi.Name() != "copy" || cp.Call.Args[0] != ssa.Value(sl) {
-						continue
-					}
-					src := cp.Call.Args[1]
-					if an.DependsOn(src, func(v ssa.Value) bool {
-						nc, ok := v.(*ssa.Call)
-						if !ok || nc.Call.StaticCallee() != nonceFn {
-							return false
+					for _, rr := range *sl.Referrers() {
+						cp, ok := rr.(*ssa.Call)
+						if !ok {
+							continue
 						}
-						a := nc.Call.Args[0]
-						dm := an.DependsOnThroughAppend(a, func(w ssa.Value) bool { return w == ssa.Value(msgP) })
-						dk := an.DependsOnThroughAppend(a, func(w ssa.Value) bool { return w == ssa.Value(keyP) })
-						return dm && dk
-					}) {
-						good = true
+						bi, ok := cp.Call.Value.(*ssa.Builtin)
+						if !ok || bi.Name() != "copy" || cp.Call.Args[0] != ssa.Value(sl) {
+							continue
+						}
+						src := cp.Call.Args[1]
+						if an.DependsOn(src, func(v ssa.Value) bool {
+							nc, ok := v.(*ssa.Call)
+							if !ok || nc.Call.StaticCallee() != nonceFn {
+								return false
+							}
+							a := nc.Call.Args[0]
+							dm := an.DependsOn(a, func(w ssa.Value) bool { return w == msgP })
+							dk := an.DependsOn(a, func(w ssa.Value) bool { return w == keyP })
+							return dm && dk
+						}) {
+							good = true
+						}
+					}
+				}
+			}
+			c.R.Cond(good, rule, core.FuncName(sf)+": nonce derived from message and key", c.P.Pos(call.Pos()),
+				"the nonce passed to secretbox.Seal is copied from nonce(message || key), computed in the sealing function from its own message and key", "the nonce passed to secretbox.Seal is not computed, in the sealing function, from the message that is sealed and the key (e.g. it is hashed from a buffer handed in from outside): equal plaintext can get different nonces and different plaintexts the same nonce")
+		}
+	}
+	if nSeal == 0 {
+		c.R.Bad(rule, core.FuncName(enc)+": seals", c.P.Pos(enc.Pos()), "no secretbox.Seal reachable from encrypt")
+	}
+}
+
+// ---- C18.stateless: encryptors are called concurrently (mast stores up to 40 nodes in parallel) ----
+
+func init() {
+	register(&Rule{Name: "C18.stateless", Min: 4, Run: c18Stateless,
+		Doc: "Encrypt/Decrypt/Store/Load of the encryptor types write no state reachable from their receiver or from package variables"})
+	byProp["C18"] = append(byProp["C18"], "C18.stateless")
+	explain["C18"] += " stateless: the tree flushes dirty nodes in parallel, so Encrypt/Decrypt (and the wrapper's Store/Load) run concurrently on one encryptor; they must not write into memory reachable from the receiver (a reused scratch buffer makes two nodes share a nonce, or one node seal differently from commit to commit)."
+}
+
+func c18Stateless(c *Ctx) {
+	const rule = "C18.stateless"
+	pk := c.P.Pkg("kv")
+	if pk == nil {
+		return
+	}
+	encT, _ := pk.Types.Scope().Lookup("Encryptor").(*types.TypeName)
+	if encT == nil {
+		c.R.Errorf("anchor interface kv.Encryptor not found")
+		return
+	}
+	iface := encT.Type().Underlying().(*types.Interface)
+	var methods []*ssa.Function
+	for _, n := range pk.Types.Scope().Names() {
+		tn, ok := pk.Types.Scope().Lookup(n).(*types.TypeName)
+		if !ok || tn == encT {
+			continue
+		}
+		if _, isI := tn.Type().Underlying().(*types.Interface); isI {
+			continue
+		}
+		for _, T := range []types.Type{tn.Type(), types.NewPointer(tn.Type())} {
+			isEnc := types.Implements(T, iface)
+			ms := c.P.SSA.MethodSets.MethodSet(T)
+			for i := 0; i < ms.Len(); i++ {
+				m := ms.At(i).Obj().Name()
+				if (isEnc && (m == "Encrypt" || m == "Decrypt")) || (n == "persistEncryptor" && (m == "Store" || m == "Load")) {
+					if fn := c.P.SSA.MethodValue(ms.At(i)); fn != nil && len(fn.Blocks) > 0 && fn.Synthetic == "" {
+						methods = append(methods, fn)
 					}
 				}
 			}
 		}
-		c.R.Cond(good, rule, core.FuncName(enc)+": nonce derived from message and key", c.P.Pos(call.Pos()),
-			"the nonce passed to secretbox.Seal is copied from nonce(message || key)", "the nonce passed to secretbox.Seal is not a function of (message, key)")
+	}
+	seen := map[*ssa.Function]bool{}
+	for _, fn := range methods {
+		if seen[fn] {
+			continue
+		}
+		seen[fn] = true
+		name := core.FuncName(fn)
+		c.R.SawFunc(name)
+		recv := fn.Params[0]
+		fromRecv := func(v ssa.Value) bool {
+			return an.DependsOn(v, func(w ssa.Value) bool { return w == ssa.Value(recv) })
+		}
+		var bad string
+		for _, b := range fn.Blocks {
+			for _, in := range b.Instrs {
+				switch x := in.(type) {
+				case *ssa.Store:
+					if _, local := an.ExprRoot(x.Addr).(*ssa.Alloc); local {
+						continue
+					}
+					if fromRecv(x.Addr) {
+						bad = "a store into memory reachable from the receiver"
+					}
+					if _, isG := x.Addr.(*ssa.Global); isG {
+						bad = "a store to a package variable"
+					}
+				case *ssa.Call:
+					if bi, ok := x.Call.Value.(*ssa.Builtin); ok && (bi.Name() == "copy" || bi.Name() == "append") {
+						if _, local := an.ExprRoot(x.Call.Args[0]).(*ssa.Alloc); !local && fromRecv(x.Call.Args[0]) {
+							bad = bi.Name() + " into a buffer held by the receiver"
+						}
+					}
+				}
+			}
+		}
+		c.R.Cond(bad == "", rule, name+": writes no shared state", c.P.Pos(fn.Pos()), "no write through the receiver, no package variable",
+			"the method performs "+bad+": it is called concurrently during a flush, so nonces/ciphertexts of different nodes can get mixed")
+	}
+	if len(methods) < 4 {
+		c.R.Errorf("only %d encryptor methods found", len(methods))
 	}
 }
